@@ -86,6 +86,20 @@ size_t HashBBdh::getSize() {
   return mem;
 }
 
+void HashBBdh::save(std::ostream &fp) {
+  // The image holds one field per table cell: rebuild it from the offsets
+  saveValue(fp, tsize);
+  saveValue(fp, n);
+
+  LogSequence *seq = new LogSequence(hashbits, tsize);
+  for (size_t i = 1; i <= n; i++)
+    seq->setField(b_ht->select1(i), offsets->select1(i));
+  seq->save(fp);
+  delete seq;
+
+  b_ht->save(fp);
+}
+
 HashBBdh *HashBBdh::load(std::istream &fp) {
   HashBBdh *h_new = new HashBBdh();
 
@@ -113,7 +127,9 @@ HashBBdh *HashBBdh::load(std::istream &fp) {
   h_new->offsets = new BitSequenceRRR(*offsets);
 
   delete offsets;
+  h_new->hashbits = h_new->hash->getNumbits();
   delete h_new->hash;
+  h_new->hash = NULL;
 
   return h_new;
 }
